@@ -11,3 +11,5 @@ import TeosVerif.Props.C01
 #print axioms Teos.C01.breaches_answered_in_every_history
 #print axioms Teos.C01.only_breached_appointments_are_touched
 #print axioms Teos.C01.breach_call_sites_are_the_modelled_ones
+#print axioms Teos.C01.every_tracker_carries_its_appointments_breach
+#print axioms Teos.C01.cache_holds_only_connected_transactions
